@@ -46,6 +46,8 @@
 #if VRT_TSAN
 #include <sys/mman.h>
 #include <cerrno>
+extern "C" void AnnotateIgnoreReadsBegin(const char* file, int line);
+extern "C" void AnnotateIgnoreReadsEnd(const char* file, int line);
 namespace vrt {
 // ThreadSanitizer (gcc 12 runtime) intercepts mmap/munmap (and forgets the access history of the range) but not mremap.
 // A mapping moved by the kernel leaves stale history on the old range and inherits stale history on the new one, so
@@ -535,7 +537,15 @@ void watchdog_start(const WatchdogCfg& cfg, HangFn on_hang_user) {
     // debugging aid: VRT_HOLD_ON_HANG=1 keeps a process that reached a hang verdict alive (for gdb -p) instead of reporting and exiting
     HangFn on_hang = [on_hang_user](const HangInfo& hi) {
         if (getenv("VRT_HOLD_ON_HANG") && (hi.quiescent || hi.spin_stall)) { fprintf(stderr, "[vrt] HOLD pid %d: %s\n", (int)getpid(), hi.quiescent ? "quiescent" : "spin-stall"); fflush(stderr); for (;;) sleep(1000); }
+#if VRT_TSAN
+        // the callback describes the state the wedged threads left behind (their records, plans): reading it is deliberate and never ends in a
+        // happens-before edge with them - tell the race detector not to report the witness collection itself
+        AnnotateIgnoreReadsBegin(__FILE__, __LINE__);
+#endif
         on_hang_user(hi);
+#if VRT_TSAN
+        AnnotateIgnoreReadsEnd(__FILE__, __LINE__);
+#endif
     };
     g_wd_thread = new std::thread([cfg, on_hang] {
         int self = gettid_();
